@@ -380,34 +380,20 @@ func newMatcher(unknown string, threshold float64) *matcher {
 // the unknown text. The resulting matches can then filtered to determine which
 // are the best matches.
 func (m *matcher) findMatches(known *knownValue) {
-	var mrs []searchset.MatchRanges
 	if all := allIndexes(m.normUnknown, known.normalizedValue); all != nil {
-		// We found exact matches. Just use those!
+		// We found exact matches. Just use those! An occurrence is reported by
+		// its own bytes: it need not start or end at a token of the unknown
+		// text, and blanks at the edges of the known value belong to it.
 		for _, a := range all {
-			var start, end int
-			for i, tok := range m.unknown.Tokens {
-				if tok.Offset == a[0] {
-					start = i
-				}
-				// Not "else if": an occurrence of a single token starts and
-				// ends in the same token.
-				if tok.Offset >= a[len(a)-1]-len(tok.Text) {
-					end = i
-					break
-				}
-			}
-
-			mrs = append(mrs, searchset.MatchRanges{{
-				SrcStart:    0,
-				SrcEnd:      len(known.set.Tokens),
-				TargetStart: start,
-				TargetEnd:   end + 1,
-			}})
+			m.mu.Lock()
+			m.queue.Push(&Match{Name: known.key, Confidence: 1.0, Offset: a[0], Extent: a[1] - a[0]})
+			m.mu.Unlock()
 		}
-	} else {
-		// No exact match. Perform a more thorough match.
-		mrs = searchset.FindPotentialMatches(known.set, m.unknown)
+		return
 	}
+
+	// No exact match. Perform a more thorough match.
+	mrs := searchset.FindPotentialMatches(known.set, m.unknown)
 
 	var wg sync.WaitGroup
 	for _, mr := range mrs {
